@@ -375,3 +375,26 @@ Lemma ren_spelled f q :
                (match q_o q with CB l => CB (f l) | x => x end)
                (match q_g q with Some (CB l) => Some (CB (f l)) | x => x end).
 Proof. unfold ren, ren_c. destruct (q_s q), (q_o q), (q_g q) as [[?|?]|]; reflexivity. Qed.
+
+(* the two theorems with the renaming written out (the form used in props/C03.v) *)
+Definition renamed (f : bytes -> bytes) (q : cquad) : cquad :=
+  CQ (match q_s q with CB l => CB (f l) | x => x end) (q_p q)
+     (match q_o q with CB l => CB (f l) | x => x end)
+     (match q_g q with Some (CB l) => Some (CB (f l)) | x => x end).
+
+Lemma map_renamed f qs : map (renamed f) qs = map (ren f) qs.
+Proof. apply map_ext. intros q. symmetry. apply ren_spelled. Qed.
+
+Theorem first_degree_invariant_spelled H f qs qs' n :
+  (forall a b, f a = f b -> a = b) -> Permutation qs' (map (renamed f) qs) ->
+  hash_first_degree H qs' (f n) = hash_first_degree H qs n.
+Proof. intros Hf P. rewrite map_renamed in P. now apply hash_first_degree_invariant. Qed.
+
+Theorem simple_invariant_spelled H f qs qs' :
+  (forall a b, f a = f b -> a = b) ->
+  NoDup (map (hash_first_degree H qs) (bnodes qs)) ->
+  Permutation qs' (map (renamed f) qs) ->
+  exists lines c lines' c',
+    canonicalize H qs = COk lines c /\ canonicalize H qs' = COk lines' c' /\
+    map snd lines = map snd lines' /\ (forall l, lookup c' (f l) = lookup c l).
+Proof. intros Hf Hs P. rewrite map_renamed in P. exact (canon_simple_invariant H f Hf qs qs' Hs P). Qed.
